@@ -60,8 +60,12 @@ func (s *cliSession) Send(r *signaling.SessionRequest) error {
 	if s.ctx.Err() != nil {
 		return context.Canceled
 	}
+	r, werr := wireReq(r)
+	if werr != nil {
+		return werr
+	}
 	s.mu.Lock()
-	s.reqs = append(s.reqs, r.CloneVT())
+	s.reqs = append(s.reqs, r)
 	s.reqAt = append(s.reqAt, tick())
 	cb := s.onSend
 	s.mu.Unlock()
@@ -76,7 +80,7 @@ func (s *cliSession) Recv() (*signaling.SessionResponse, error) {
 		if r == nil {
 			return nil, errors.New("verif: relay stream failed")
 		}
-		return r, nil
+		return wireResp(r)
 	case <-s.ctx.Done():
 		return nil, context.Canceled
 	}
